@@ -231,7 +231,7 @@ Proof. vm_compute. repeat split; reflexivity. Qed.
     [sw_m_ok E n1 n2] = sw_any_wf_b and, on every world rank, the extent of the step (destination block size;
     for a gather also p*B, for a handler-internal swap also p * padded block size) <= E w.
     The well-formedness predicates do not relate extents and process counts (empty blocks are admitted). *)
-From PGV Require Import FrameMem SwapperFrame.
+From PGV Require Import FrameMem SwapperFrame SwapperBuf.
 
 (** gather, function level, any address *)
 Theorem c03_gather_frame_plain :
@@ -329,6 +329,39 @@ Theorem c03_mem_route_correct_intact :
   HoldsS V dflt Nl nprocsT d' G (snd (last steps cur)) (fst (sw_m_redirect_intact V dflt Nl nprocsT d' cur steps src dst buf)).
 Proof. exact sw_m_redirect_intact_correct. Qed.
 Print Assumptions c03_mem_route_correct_intact.
+
+(** the extent of the gather S -> D and of the scatter back lies inside p * B (p padded blocks of the scattered
+    layout), and p * B is what the constructor reserves for the pair - its computation (layout.py:1088-1109,
+    model sw_pair_bufsize: both blocks padded on the axis found by getAxes, the comparison blockSize1 > blockSize2
+    selecting the communicator) yields p * B for either order of the two layouts whenever one padded block of S is
+    smaller than the block of D (always so when no block is empty and p > 1); sw_bufsize >= every enumerated pair *)
+Theorem c03_gather_scatter_within_pB :
+  forall (Nl nprocsT : list nat) (d' : nat) (LS LD : sw_lay) (is_ w : nat),
+  sw_cfg_wf_b Nl nprocsT d' LS LD = true -> sw_gather_wf_b nprocsT d' LS LD is_ = true -> w < sw_nranks nprocsT ->
+  Nat.max (sw_msize Nl nprocsT d' LD w) (sw_P nprocsT (snd LS) is_ * sw_gB Nl nprocsT d' LS is_ w)
+    <= sw_P nprocsT (snd LS) is_ * sw_gB Nl nprocsT d' LS is_ w /\
+  sw_msize Nl nprocsT d' LS w <= sw_P nprocsT (snd LS) is_ * sw_gB Nl nprocsT d' LS is_ w.
+Proof. exact sw_gather_scatter_extent_le. Qed.
+Print Assumptions c03_gather_scatter_within_pB.
+Theorem c03_ctor_reserves_pB :
+  forall (Nl nprocsT : list nat) (d' : nat) (LS LD : sw_lay) (is_ w : nat),
+  sw_cfg_wf_b Nl nprocsT d' LS LD = true -> sw_gather_wf_b nprocsT d' LS LD is_ = true -> w < sw_nranks nprocsT ->
+  sw_nd nprocsT (snd LD) < sw_nd nprocsT (snd LS) -> sw_gather_axis LS LD = Some is_ ->
+  sw_gB Nl nprocsT d' LS is_ w < sw_msize Nl nprocsT d' LD w ->
+  sw_pair_bufsize Nl nprocsT d' LS LD w = Some (sw_gB Nl nprocsT d' LS is_ w * sw_P nprocsT (snd LS) is_) /\
+  sw_pair_bufsize Nl nprocsT d' LD LS w = Some (sw_gB Nl nprocsT d' LS is_ w * sw_P nprocsT (snd LS) is_).
+Proof. exact sw_pair_bufsize_gather. Qed.
+Print Assumptions c03_ctor_reserves_pB.
+Theorem c03_bufsize_ge_pairs :
+  forall (Nl nprocsT : list nat) (d' : nat) (hsizes : list nat) (pairs : list (sw_lay * sw_lay)) (w tot : nat),
+  sw_bufsize Nl nprocsT d' hsizes pairs w = Some tot ->
+  fold_left Nat.max hsizes 0 <= tot /\
+  forall L1 L2, In (L1, L2) pairs -> exists b, sw_pair_bufsize Nl nprocsT d' L1 L2 w = Some b /\ b <= tot.
+Proof.
+  intros Nl nprocsT d' hsizes pairs w tot H. unfold sw_bufsize in H.
+  destruct (sw_bufsize_ge Nl nprocsT d' pairs w _ tot H) as [[a [Ea Ha]] Hin]. injection Ea as <-. split; assumption.
+Qed.
+Print Assumptions c03_bufsize_ge_pairs.
 
 (** LayoutSwapper.transpose with a spare buffer: the source array afterwards is the source array given (all cells) *)
 Theorem c03_source_intact :
